@@ -346,6 +346,43 @@ Proof.
 Qed.
 
 (* ---- TMCG_Stack<VTMF_Card> ----------------------------------------------------------------------- *)
+(* ---- TMCG_CardSecret ---------------------------------------------------------------------------- *)
+Lemma pair_up_unpair l : pair_up (unpair l) = l.
+Proof. induction l as [|[a b] l IH]; cbn; [reflexivity|]. f_equal. exact IH. Qed.
+
+Lemma length_unpair l : length (unpair l) = (2 * length l)%nat.
+Proof. induction l as [|[a b] l IH]; cbn [unpair flat_map app length fst snd]; [reflexivity|]. fold (unpair l). rewrite IH. lia. Qed.
+
+Definition wf_tsecret (c : list (list (Z * Z))) : Prop :=
+  (1 <= length c <= Z.to_nat TMCG_MAX_PLAYERS)%nat /\
+  (1 <= length (hd [] c) <= Z.to_nat TMCG_MAX_TYPEBITS)%nat /\
+  Forall (fun row => length row = length (hd [] c)) c.
+
+Theorem tsecret_roundtrip c : wf_tsecret c -> import_tsecret (export_tsecret c) = Some c.
+Proof.
+  intros (Hk & Hw & Hrows). unfold import_tsecret, export_tsecret.
+  cbn [app]. rewrite cm_magic by apply magic_nobar_crs.
+  assert (TP : (Z.to_nat TMCG_MAX_PLAYERS < 1000)%nat) by (vm_compute; lia).
+  assert (TB : (Z.to_nat TMCG_MAX_TYPEBITS < 1000)%nat) by (vm_compute; lia).
+  rewrite <- ?app_assoc. cbn [app].
+  rewrite import_dim_encode; [|unfold ulong_max; lia|lia].
+  rewrite import_dim_encode; [|unfold ulong_max; lia|lia].
+  rewrite !Nnat.Nat2N.id.
+  set (w := length (hd [] c)) in *.
+  assert (Hrows2 : Forall (fun row => length row = (2 * w)%nat) (map unpair c)).
+  { apply Forall_map. eapply Forall_impl; [|exact Hrows]. intros row Hr. cbv beta in Hr. rewrite length_unpair, Hr. reflexivity. }
+  rewrite <- (app_nil_r (write_fields (concat (map unpair c)))).
+  replace (length c * (2 * w))%nat with (length (concat (map unpair c))).
+  2:{ rewrite (length_concat_uniform (2 * w) (map unpair c) Hrows2), map_length. reflexivity. }
+  rewrite read_write_fields.
+  rewrite <- (map_length unpair c) at 1. rewrite chunk_concat by exact Hrows2.
+  rewrite map_map. f_equal. rewrite <- (map_id c) at 2. apply map_ext. intro l. apply pair_up_unpair.
+Qed.
+
+(* non-vacuity *)
+Example wf_tsecret_example : wf_tsecret [[(5, 1); (-7, 0)]; [(0, 0); (62, 1)]]%Z.
+Proof. unfold wf_tsecret. cbn [length hd]. repeat split; try (vm_compute; lia). repeat constructor. Qed.
+
 Lemma read_cards_export st rest :
   read_cards (length st) (concat (map (fun c => export_vcard c ++ [hat]) st) ++ rest) = Some (st, rest).
 Proof.
